@@ -9,10 +9,14 @@ From Verif Require Import Lib.Bytes Crypto.Sha256 Crypto.Ripemd160 Crypto.Secp25
 Import ListNotations.
 Open Scope Z_scope.
 
-(* a passphrase is handed over as (UTF-8 of the text as written, UTF-8 of its NFC form) *)
-Definition PW := (bytes * bytes)%type.
-Definition pw_utf8 (p : PW) : bytes := fst p.
-Definition pw_nfc (p : PW) : PW := (snd p, snd p).
+(* a str argument is handed over as (UTF-8 of the text as written, UTF-8 of its NFC form);
+   a passphrase ARGUMENT is that or a bytes object *)
+Definition TXT := (bytes * bytes)%type.
+Definition txt_utf8 (p : TXT) : bytes := fst p.
+Definition txt_nfc (p : TXT) : TXT := (snd p, snd p).
+Definition PW := pyarg TXT.
+Definition pw_utf8 (p : PW) : bytes := arg_bytes txt_utf8 p.
+Definition pw_nfc (p : PW) : PW := arg_nfc txt_nfc p.
 
 Definition ser_pt (c : bool) (xy : Z * Z) : bytes :=
   if c then ser_point_compressed (Some xy) else ser_point_uncompressed (Some xy).
@@ -41,7 +45,9 @@ Definition x_key_decrypt (pfx : bytes) (s : bytes) (pw : PW) : key_res :=
 Definition x_bip38_decrypt (s : bytes) (pw : PW) : res dec_info :=
   lib_bip38_decrypt PW pw_utf8 scrypt aes_dec sha256d hash160 b58_enc x_b58d secp_pubser s pw.
 Definition x_intermediate (pw : PW) (lot sequence : option Z) (salt : bytes) : res bytes :=
-  lib_intermediate PW pw_utf8 pw_nfc scrypt sha256d b58_enc secp_pubser pw lot sequence salt.
+  lib_intermediate_arg TXT txt_utf8 txt_nfc scrypt sha256d b58_enc secp_pubser pw lot sequence salt.
+Definition x_encrypt_call (priv : bytes) (addr pw : PW) (flag : byte) : bytes :=
+  lib_bip38_encrypt_call TXT txt_utf8 scrypt aes_enc sha256d b58_enc priv addr pw flag.
 Definition x_create_new (pfx : bytes) (ip : bytes) (c : bool) (seed : bytes) : res new_key :=
   lib_create_new scrypt aes_enc sha256d hash160 b58_enc x_b58d secp_pubser secp_ptmulser pfx ip c seed.
 Definition x_spec_encrypt (pfx : bytes) (c : bool) (k : Z) (pw : PW) : option bytes :=
@@ -54,5 +60,5 @@ End Inst.
 
 Extraction Language OCaml.
 Extraction "../ocaml/c15_model.ml" bz zb lib_is_protected x_address x_key_encrypt x_key_decrypt x_bip38_decrypt
-  x_intermediate x_create_new x_spec_encrypt x_spec_decrypt x_spec_intermediate
+  x_intermediate x_encrypt_call x_create_new x_spec_encrypt x_spec_decrypt x_spec_intermediate
   lib_entropy_use legacy_entropy_use spec_entropy_use.
